@@ -1817,7 +1817,17 @@ impl DtlsInner {
                         } else {
                             (&keys.server_write_key, &keys.server_write_iv)
                         };
-                        let full_seq = ((ctx.epoch as u64) << 48) | ctx.sequence_number;
+                        // Never reuse a record sequence number (AEAD nonce) under one key:
+                        // once connected, application records draw from `write_seq`.
+                        let connected = matches!(*self.state.lock(), DtlsState::Connected(..));
+                        let sequence_number = if connected {
+                            self.write_seq.fetch_add(1, Ordering::SeqCst)
+                        } else {
+                            let seq = ctx.sequence_number;
+                            ctx.sequence_number += 1;
+                            seq
+                        };
+                        let full_seq = ((ctx.epoch as u64) << 48) | sequence_number;
                         if let Ok(encrypted) = encrypt_record(
                             ContentType::Alert,
                             ProtocolVersion::DTLS_1_2,
@@ -1830,7 +1840,7 @@ impl DtlsInner {
                                 content_type: ContentType::Alert,
                                 version: ProtocolVersion::DTLS_1_2,
                                 epoch: ctx.epoch,
-                                sequence_number: ctx.sequence_number,
+                                sequence_number,
                                 payload: Bytes::from(encrypted),
                             };
                             let mut buf = BytesMut::new();
